@@ -64,8 +64,10 @@ type loopInfo struct {
 	body     map[*ssa.BasicBlock]bool
 	ordinal  int
 	modified map[string]bool
-	havocAll bool
-	known    bool
+	// freshOnly: heaps the body only extends with objects allocated inside the body
+	freshOnly map[string]bool
+	havocAll  bool
+	known     bool
 }
 
 // Frame is one activation of a function being symbolically executed.
@@ -436,10 +438,23 @@ func (f *Frame) rootSet(l *Loc, st *State, v Term) {
 			h = vc.heapVar(vc.sorts.objHeap(l.rootT))
 		}
 		st.vars[h] = vc.define("H", vc.varSort[h], sto(vc.get(st, h), l.ref, v))
+		if !vc.isFreshRef(l.ref) {
+			vc.noteOldWrite(h)
+		}
 	case locElem:
 		h := vc.heapVar(vc.sorts.elemHeap(l.rootT))
 		cur := vc.get(st, h)
+		if !vc.isFreshRef(l.sref) {
+			vc.noteOldWrite(h)
+		}
 		st.vars[h] = vc.define("E", vc.varSort[h], sto(cur, l.sref, sto(sel(cur, l.sref), l.idx, v)))
+		// Bridging instance of read-over-write, triggered on reads of the NEW heap: it produces the
+		// corresponding read of the OLD heap, on which quantified invariants are triggered.
+		// (Logically implied by the store; it only helps E-matching.)
+		if nh := st.vars[h]; nh != cur && f.discovering == nil {
+			vc.assume(fmt.Sprintf("(forall ((p Int) (i Int)) (! (=> (or (not (= p %s)) (not (= i %s))) (= (select (select %s p) i) (select (select %s p) i))) :pattern ((select (select %s p) i))))",
+				l.sref, l.idx, nh, cur, nh))
+		}
 	}
 }
 
@@ -490,6 +505,7 @@ func (f *Frame) newRef(st *State) Term {
 	n := vc.fresh("ref", "Int")
 	vc.assume(fmt.Sprintf("(= %s (+ %s 1))", n, cur))
 	st.vars["alloc"] = n
+	vc.noteFresh(n)
 	return n
 }
 
@@ -701,6 +717,7 @@ func (f *Frame) enterLoop(h *ssa.BasicBlock, li *loopInfo, ins []inEdge) *State 
 		states[i] = e.st
 	}
 	st := vc.merge(states)
+	entryAlloc := vc.get(st, "alloc")
 	// havoc what the loop modifies
 	if li.havocAll {
 		vc.havocAll(st, true)
@@ -722,7 +739,19 @@ func (f *Frame) enterLoop(h *ssa.BasicBlock, li *loopInfo, ins []inEdge) *State 
 				st.vars[k] = na
 				continue
 			}
+			prev := vc.get(st, k)
 			st.vars[k] = vc.fresh("hv", vc.varSort[k])
+			if li.freshOnly[k] {
+				// objects that existed at loop entry are untouched by the body
+				vc.assume(fmt.Sprintf("(forall ((r Int)) (! (=> (<= r %s) (= (select %s r) (select %s r))) :pattern ((select %s r))))",
+					entryAlloc, st.vars[k], prev, st.vars[k]))
+			}
+		}
+	}
+	// well-formedness of havocked heaps: every reference stored in them is allocated
+	for k := range li.modified {
+		if _, isCur := st.vars[k]; isCur {
+			vc.assumeHeapWF(k, st.vars[k], vc.get(st, "alloc"))
 		}
 	}
 	f.havocPhis(h, st)
@@ -761,6 +790,17 @@ func (f *Frame) discover(h *ssa.BasicBlock, li *loopInfo) {
 	f.in = map[*ssa.BasicBlock][]inEdge{}
 	f.discovering = h
 	f.discBack = nil
+	savedFloor, savedOW := vc.freshFloor, vc.oldWrites
+	vc.freshFloor, vc.oldWrites = vc.n, map[string]bool{}
+	restoreFresh := func() {
+		for k := range vc.oldWrites {
+			if savedOW == nil {
+				savedOW = map[string]bool{}
+			}
+			savedOW[k] = true
+		}
+		vc.freshFloor, vc.oldWrites = savedFloor, savedOW
+	}
 	// all-fresh header state
 	st := &State{vars: map[string]Term{}, epoch: vc.newEpoch(), pc: "true"}
 	base := map[string]Term{}
@@ -780,6 +820,7 @@ func (f *Frame) discover(h *ssa.BasicBlock, li *loopInfo) {
 				f.discovering, f.discBack, f.in = savedDisc, savedBack, savedIn
 				f.rets, f.panics = savedRets, savedPanics
 				vc.restore(snap)
+				restoreFresh()
 				panic(r)
 			}
 		}()
@@ -797,7 +838,13 @@ func (f *Frame) discover(h *ssa.BasicBlock, li *loopInfo) {
 			}
 		}
 	}
-	// variables registered during discovery and present at back edges
+	li.freshOnly = map[string]bool{}
+	for k := range li.modified {
+		if (strings.HasPrefix(unq(k), "E:") || strings.HasPrefix(unq(k), "H:")) && !vc.oldWrites[k] {
+			li.freshOnly[k] = true
+		}
+	}
+	restoreFresh()
 	li.known = true
 	f.discovering, f.discBack, f.in = savedDisc, savedBack, savedIn
 	f.rets, f.panics = savedRets, savedPanics
